@@ -37,6 +37,9 @@ FAKE = {"lammps": PY + os.path.join(PLUG, "fake_lmp.py"), "cp2k": PY + os.path.j
         "gromacs": PY + os.path.join(PLUG, "fake_gmx.py")}
 EXTERNAL = ("lammps", "cp2k", "gromacs")
 HANG_SLEEPS = 40        # sleeps after the program is gone before a run is declared hanging
+GRACE = 3.0             # seconds a stopped program is given to disappear after propagate has ended
+WATCH = 0.25            # seconds the exe directory is watched for writes after propagate has ended
+LAUNCHERS = ("fg", "bg")
 
 # TRR layout written by fake_gmx.py (double precision): see trr_sizes()
 TRR_HEAD0 = 1000
@@ -56,12 +59,22 @@ class HangDetected(BaseException):
 class SyncSleep:
     """Replacement of `time.sleep` inside an engine module."""
 
-    def __init__(self, ctl_dir):
+    def __init__(self, ctl_dir, launcher=False):
         self.dir = ctl_dir
         self.n = 0
         self.pid = None
         self.gone = False
         self.after_gone = 0
+        # launcher mode: the engine's direct child is a launcher script and the fake program
+        # is the launcher's child.  What the engine's poll() sees is the launcher, so "the
+        # program has ended" means here: the launcher has ended (it waits for the program).
+        self.launcher = launcher
+        self.top = None
+
+    def _top_gone(self):
+        if self.top is None:
+            self.top = [pid for pid, _ in children()]
+        return all(proc_state(pid) in "ZX" for pid in self.top)
 
     def _read(self, name):
         try:
@@ -91,6 +104,9 @@ class SyncSleep:
             if self.after_gone > HANG_SLEEPS:
                 raise HangDetected(f"engine still waiting {self.after_gone} sleeps after the program ended")
             return
+        if self.launcher and self._top_gone():
+            self.gone = True
+            return
         tmp = os.path.join(self.dir, ".go")
         with open(tmp, "w") as f:
             f.write(str(self.n))
@@ -99,6 +115,22 @@ class SyncSleep:
         while True:
             a = self._read("ack")
             st = self._state()
+            if self.launcher:
+                if st in "ZX" or a == "exit" or self._top_gone():
+                    # the program is gone or on its way out: wait until the launcher's exit
+                    # is observable by the engine
+                    while not self._top_gone():
+                        time.sleep(0.0003)
+                        if time.time() - t0 > 120:
+                            raise HarnessError("fake program ended but its launcher does not")
+                    self.gone = True
+                    return
+                if a is not None and a.isdigit() and int(a) >= self.n:
+                    return
+                time.sleep(0.0003)
+                if time.time() - t0 > 120:
+                    raise HarnessError(f"fake program (behind a launcher) did not acknowledge step {self.n} (state {st})")
+                continue
             if st in "ZX":
                 self.gone = True
                 return
@@ -132,6 +164,79 @@ def children():
                 out.append((int(d), rest[0]))
         except (OSError, ValueError, IndexError):
             pass
+    return out
+
+
+def proc_state(pid):
+    """'Z' zombie / 'X' gone / other = alive."""
+    try:
+        with open(f"/proc/{pid}/stat") as f:
+            s = f.read()
+        return s[s.rindex(")") + 2]
+    except (OSError, ValueError, IndexError):
+        return "X"
+
+
+def program_procs(ctl_prefix, exact=True):
+    """Every live process (any parent, any process group) that was started with
+    FAKEMD_CTL=<ctl_prefix> in its environment, i.e. every process of the external program of
+    one propagation, launcher included: [(pid, state, command)].  The environment is
+    inherited through launchers and survives re-parenting, so this also finds a program whose
+    launcher is gone.  Zombies are not alive (and have no readable environment)."""
+    key = b"FAKEMD_CTL=" + ctl_prefix.encode()
+    me = os.getpid()
+    out = []
+    for d in os.listdir("/proc"):
+        if not d.isdigit() or int(d) == me:
+            continue
+        try:
+            with open(f"/proc/{d}/environ", "rb") as f:
+                env = f.read().split(b"\0")
+        except OSError:
+            continue
+        if not any((e == key) if exact else e.startswith(key) for e in env):
+            continue
+        st = proc_state(int(d))
+        if st in "ZX":
+            continue
+        try:
+            with open(f"/proc/{d}/cmdline", "rb") as f:
+                cmd = " ".join(os.path.basename(x.decode(errors="replace")) for x in f.read().split(b"\0") if x)
+        except OSError:
+            cmd = "?"
+        out.append((int(d), st, cmd))
+    return sorted(out)
+
+
+def kill_strays(root):
+    """SIGKILL every process started with a control file below `root` (clean-up)."""
+    n = 0
+    root = root.rstrip("/") + "/"
+    for _ in range(3):
+        procs = program_procs(root, exact=False)
+        if not procs:
+            break
+        for pid, _, _ in procs:
+            try:
+                os.kill(pid, 9)
+                n += 1
+            except OSError:
+                pass
+        time.sleep(0.02)
+    return n
+
+
+def snapshot_dir(d):
+    out = {}
+    try:
+        for nm in os.listdir(d):
+            try:
+                st = os.stat(os.path.join(d, nm))
+                out[nm] = (st.st_size, st.st_mtime_ns, st.st_ino)
+            except OSError:
+                pass
+    except OSError:
+        pass
     return out
 
 
@@ -427,10 +532,48 @@ def _engine_module(name):
     return {"lammps": m_lmp, "cp2k": m_cp2k, "gromacs": m_gmx}[name]
 
 
+LAUNCHER_SH = {
+    # a wrapper script as production set-ups use it (set up the environment, then run the real
+    # program): the program is the launcher's CHILD (no exec), the launcher waits for it and
+    # passes its exit status on
+    "fg": """#!/bin/sh
+# launcher: set up the environment, then run the program
+export OMP_NUM_THREADS=1
+{cmd} "$@"
+status=$?
+exit $status
+""",
+    # the same with the program started in the background and waited for (mpirun-like)
+    "bg": """#!/bin/sh
+# launcher: start the program, wait for it
+export OMP_NUM_THREADS=1
+{cmd} "$@" &
+child=$!
+wait $child
+status=$?
+exit $status
+""",
+}
+
+
+def write_launcher(case, wd):
+    """The command the engine is configured with when case["launcher"] is set: an executable
+    sh script that runs the fake program as its child."""
+    kind = case["launcher"]
+    d = os.path.join(wd, "bin")
+    os.makedirs(d, exist_ok=True)
+    fn = os.path.join(d, f"run_{case['engine']}_{kind}.sh")
+    with open(fn, "w") as f:
+        f.write(LAUNCHER_SH[kind].format(cmd=FAKE[case["engine"]].strip()))
+    os.chmod(fn, 0o755)
+    return fn
+
+
 def make_engine(case, wd):
     """Build the real engine object for the case; returns (engine, initial config file)."""
     import numpy as np
     eng = case["engine"]
+    prog = write_launcher(case, wd) if case.get("launcher") else FAKE[eng]
     inp = os.path.join(wd, "input")
     exe = os.path.join(wd, "exe")
     os.makedirs(exe, exist_ok=True)
@@ -438,7 +581,7 @@ def make_engine(case, wd):
     if eng == "lammps":
         from infretis.classes.engines.lammps import LAMMPSEngine
         write_lammps_inputs(inp, natoms)
-        e = LAMMPSEngine(FAKE["lammps"], inp, case["timestep"], case["subcycles"], 300.0,
+        e = LAMMPSEngine(prog, inp, case["timestep"], case["subcycles"], 300.0,
                          atom_style="full", sleep=case.get("sleep", 0.1))
         conf = os.path.join(wd, "start.lammpstrj")
         write_lammpstrj(conf, case["pos"], case["vel"], case["box"])
@@ -446,7 +589,7 @@ def make_engine(case, wd):
     elif eng == "cp2k":
         from infretis.classes.engines.cp2k import CP2KEngine
         write_cp2k_inputs(inp, case)
-        e = CP2KEngine(FAKE["cp2k"], inp, case["timestep"], case["subcycles"], 300.0,
+        e = CP2KEngine(prog, inp, case["timestep"], case["subcycles"], 300.0,
                        sleep=case.get("sleep", 0.1))
         conf = os.path.join(wd, "start.xyz")
         write_xyz_conf(conf, case["pos"], case["vel"], case["box"][:3])
@@ -459,7 +602,7 @@ def make_engine(case, wd):
         conf = os.path.join(wd, "start.g96")
         with open(conf, "w") as f:
             f.write(g96_text(case["pos"], case["vel"], case["box"]))
-        e.set_mdrun({"exe_dir": exe, "wmdrun": FAKE["gromacs"] + " mdrun"})
+        e.set_mdrun({"exe_dir": exe, "wmdrun": prog + " mdrun"})      # grompp/energy: the program itself
     else:
         raise ValueError(eng)
     e.rgen = np.random.default_rng(0)
@@ -532,7 +675,7 @@ def propagate_once(engine, case, wd, conf, idx, vel_rev_in, reverse, tag, ctl_ov
     sync = None
     old_sleep = mod.sleep
     if case.get("mode", "sync") == "sync":
-        sync = SyncSleep(ctl_dir)
+        sync = SyncSleep(ctl_dir, launcher=bool(case.get("launcher")))
         mod.sleep = sync
     elif case["engine"] == "gromacs":
         mod.GromacsRunner.SLEEP = case.get("sleep", 0.01)
@@ -555,9 +698,41 @@ def propagate_once(engine, case, wd, conf, idx, vel_rev_in, reverse, tag, ctl_ov
         obs["raised"] = f"{type(e).__name__}: {e}"[:300]
     finally:
         mod.sleep = old_sleep
+    t_end = time.time()
     kids = children()
     obs["children"] = kids
     obs["children_alive"] = [k for k in kids if k[1] not in "ZX"]
+    # "the external program is stopped when propagation ends": no process that was started
+    # for this propagation (found by the control file in its environment, whoever its parent
+    # is now) may be alive; a terminated process is given GRACE seconds to disappear
+    ctl_path = os.path.join(ctl_dir, "ctl.json")
+    try:
+        alive = program_procs(ctl_path)
+        while alive and time.time() - t_end < GRACE:
+            time.sleep(0.02)
+            alive = program_procs(ctl_path)
+        obs["program_alive"] = [[st, cmd] for _, st, cmd in alive]
+        obs["program_pids"] = [pid for pid, _, _ in alive]
+        obs["grace"] = round(time.time() - t_end, 2) if alive else 0
+        obs["still_writing"] = []
+        if alive or case.get("watch"):
+            exe_dir = os.path.join(wd, "exe")
+            before = snapshot_dir(exe_dir)
+            if alive and sync is not None:
+                # hand-shake mode: the surviving program is blocked waiting for the next engine
+                # sleep; let it run on freely, as it would without the hand-shake
+                with open(os.path.join(ctl_dir, ".go"), "w") as f:
+                    f.write(str(10 ** 6))
+                os.replace(os.path.join(ctl_dir, ".go"), os.path.join(ctl_dir, "go"))
+            time.sleep(WATCH if not alive else 2 * WATCH)
+            after = snapshot_dir(exe_dir)
+            obs["still_writing"] = sorted(nm for nm in after if after[nm] != before.get(nm))
+    finally:
+        for pid, _, _ in program_procs(ctl_path):
+            try:
+                os.kill(pid, 9)
+            except OSError:
+                pass
     obs["sigterm"] = os.path.exists(os.path.join(ctl_dir, "sigterm"))
     obs["nsleeps"] = sync.n if sync else None
     # reap whatever is left so that later propagations start clean
@@ -607,6 +782,8 @@ def run_case(case):
         import c12_inproc
         return c12_inproc.run_inproc(case)
     finally:
+        if case["engine"] in EXTERNAL:
+            kill_strays(wd)
         shutil.rmtree(wd, ignore_errors=True)
 
 
